@@ -65,7 +65,7 @@ Next == /\ l <= NRec
         /\ l' = l + 1
         /\ LET w == Why(Rec[l])
            IN  IF w = "" THEN TRUE
-               ELSE PrintT(<<"REJECT", l, IF w # "binding" /\ Rlat87("air", 0, Rec[l].L)
+               ELSE PrintT(<<"REJECT", l, IF w \in {"none_in_same_band", "wrong_position"} /\ Rlat87("air", 0, Rec[l].L)
                                           THEN "nl_87_exact" ELSE w, w>>)
 Spec == Init /\ [][Next]_l
 =============================================================================
